@@ -336,6 +336,31 @@ func runC14N1(st *c14state) {
 			return false
 		})
 		if !fromProtoOption {
+			// other spelling: the word is cut at its "=" (strings.Cut / SplitN) and the key is compared with "proto"
+			// where the scheme is chosen
+			var cut ssa.Value
+			derives(b.X, func(v ssa.Value) bool {
+				if c14isSplitAtEq(v) {
+					cut = v
+					return true
+				}
+				return false
+			})
+			if cut != nil {
+				for _, ft := range factsAt(b.Block()) {
+					x, op, y, ok := c14cmp(ft)
+					if !ok || op != token.EQL {
+						continue
+					}
+					for _, pair := range [][2]ssa.Value{{x, y}, {y, x}} {
+						if k, isK := constString(pair[1]); isK && k == "proto" && derives(pair[0], func(v ssa.Value) bool { return v == cut }) {
+							fromProtoOption = true
+						}
+					}
+				}
+			}
+		}
+		if !fromProtoOption {
 			return
 		}
 		// the membership test: v compared with each scheme constant somewhere in the same function
@@ -345,7 +370,7 @@ func runC14N1(st *c14state) {
 				return
 			}
 			for _, pair := range [][2]ssa.Value{{cmp.X, cmp.Y}, {cmp.Y, cmp.X}} {
-				if k, isK := constString(pair[1]); isK && (pair[0] == b.X || derives(b.X, func(v ssa.Value) bool { return v == pair[0] }) || derives(pair[0], func(v ssa.Value) bool { return v == b.X })) {
+				if k, isK := constString(pair[1]); isK && (pair[0] == b.X || c14sameElem(pair[0], b.X) || derives(b.X, func(v ssa.Value) bool { return v == pair[0] }) || derives(pair[0], func(v ssa.Value) bool { return v == b.X })) {
 					for _, p := range want {
 						if k == p || k == "proto="+p {
 							seen[p] = true
@@ -581,4 +606,24 @@ func (g *c14guard) guarded(v ssa.Value, d int) bool {
 		return all(x.X)
 	}
 	return false
+}
+
+// c14sameElem: a and b are the same value, or two loads of the same element (constant index) of the same list.
+func c14sameElem(a, b ssa.Value) bool {
+	if c14sameValue(a, b) {
+		return true
+	}
+	la, ok1 := a.(*ssa.UnOp)
+	lb, ok2 := b.(*ssa.UnOp)
+	if !ok1 || !ok2 || la.Op != token.MUL || lb.Op != token.MUL {
+		return false
+	}
+	ia, ok1 := la.X.(*ssa.IndexAddr)
+	ib, ok2 := lb.X.(*ssa.IndexAddr)
+	if !ok1 || !ok2 || ia.X != ib.X {
+		return false
+	}
+	ka, ok1 := constInt(ia.Index)
+	kb, ok2 := constInt(ib.Index)
+	return ok1 && ok2 && ka == kb
 }
